@@ -74,7 +74,10 @@ def segmentation(rng, T, max_segments):
 
 def gen_observation(rng):
     """A random observation structure (plain data, JSON-able)."""
-    T = rng.randint(2, 12)
+    # one observation in seven is long with many scans, so that scan / compscan indices pass 8 and 16
+    # (orderings that only hold for small index sets show up there)
+    long_obs = rng.random() < 0.15
+    T = rng.randint(24, 40) if long_obs else rng.randint(2, 12)
     F = rng.randint(1, 8)
     n_ants = rng.randint(1, 3)
     pols = 'hv'
@@ -88,7 +91,7 @@ def gen_observation(rng):
                     cps.append((f'm{i:03d}{x}', f'm{j:03d}{y}'))
     rng.shuffle(cps)
     cps = cps[:rng.randint(1, len(cps))] if rng.random() < 0.3 else cps
-    scan_events = segmentation(rng, T, 6)
+    scan_events = segmentation(rng, T, 24 if long_obs else 6)
     scan_states = [rng.choice(STATES) for _ in scan_events[:-1]]
     # compscans: a coarser segmentation made of scan boundaries
     inner = scan_events[1:-1]
